@@ -1,4 +1,6 @@
 import Femio.Lemmas.UcdProps
+import Femio.Lemmas.UcdAlign
+import Femio.Lemmas.UcdTextProps
 import Femio.Gen.Tables
 
 /-! C04 — AVS UCD write → read is exact for mesh, nodal and elemental data.
@@ -236,6 +238,174 @@ theorem C04_misaligned_counterexample :
       [⟨['E'], 1⟩], [[30], [70]]⟩       -- rows in the variable's own order [3, 7]
     (Ucd.read (write m)).map (·.elemRows) = some [(7, [30]), (3, [70])] := by
   decide
+
+/-! ### variables with their own id order (DESIGN §5 F9, repaired: `FEMWriter._align_data`) -/
+
+/-- a FEMData the writer accepts: node ids and `elements.ids` without repetition; every nodal (elemental) variable
+    is an id-keyed table whose own ids are a permutation of the node (element) ids **in any order**, one row per
+    id, every row as wide as the variable, at least one column -/
+structure FemOK (f : Fem V) : Prop where
+  nodeIds : (f.nodes.map Prod.fst).Nodup
+  elemIds : (elemIds f.blocks).Nodup
+  nodal : ∀ v ∈ f.nodalVars, VarOK (f.nodes.map Prod.fst) v
+  elemental : ∀ v ∈ f.elemVars, VarOK (Ucd.elemIds f.blocks) v
+
+theorem femOKB_sound (f : Fem V) (h : femOKB f = true) : FemOK f := by
+  simp only [femOKB, Bool.and_eq_true, nodupB_iff, List.all_eq_true, varOKB_iff] at h
+  exact ⟨h.1.1.1, h.1.1.2, h.1.2, h.2⟩
+
+/-- `tabs` (the tables read back) are the variables `vs` bound to the same ids: as many tables, and the `j`-th has
+    the name and width of the `j`-th variable, lists the ids in the order `ids`, consists of exactly the
+    (id, row) pairs of the variable's own table, and holds under every id `v.ids[k]` the row `v.rows[k]` -/
+def BoundToSameIds (ids : List Nat) (vs tabs : List (VarTab V)) : Prop :=
+  tabs.length = vs.length ∧
+  ∀ (j : Nat) (v : VarTab V), vs[j]? = some v → ∃ tab, tabs[j]? = some tab ∧
+    tab.name = v.name ∧ tab.width = v.width ∧ tab.ids = ids ∧ tab.rows.length = ids.length ∧
+    (tab.ids.zip tab.rows).Perm (v.ids.zip v.rows) ∧
+    ∀ (k : Nat) (hk : k < v.ids.length) (hk' : k < v.rows.length), (tab.ids.zip tab.rows).lookup v.ids[k] = some v.rows[k]
+
+theorem boundToSameIds_aligned (ids : List Nat) (hnd : ids.Nodup) (vs : List (VarTab V)) (hv : ∀ v ∈ vs, VarOK ids v) :
+    BoundToSameIds ids vs (vs.map (alignedTab ids)) := by
+  refine ⟨by simp, ?_⟩
+  intro j v hj
+  have hmem : v ∈ vs := List.mem_of_getElem? hj
+  obtain ⟨h1, h2, h3, h4⟩ := alignedTab_spec ids v hnd (hv v hmem)
+  refine ⟨alignedTab ids v, by simp [hj], rfl, rfl, h1, h2, h3, ?_⟩
+  intro k hk hk'
+  exact h4 k hk
+
+theorem toMesh_WF (cfg : Cfg) (f : Fem V) : WF (toMesh cfg f) :=
+  ⟨by simp [toMesh, catRows], by simp [toMesh, catRows, nElem, length_elemIds]⟩
+
+/-- **C04_bound_to_same_ids_own_order** — the full "bound to the same node and element ids" clause for the repaired
+    writer (`Cfg.fixed`), **without** an alignment hypothesis: for every FEMData with any number of nodal and
+    elemental variables, each stored in its own private row order (any permutation of the mesh's ids, a different
+    one per variable), reading the written file back and cutting the rows into per-variable tables
+    (`_read_associated_data`) gives for every variable a table that lists the mesh's ids and holds under every id
+    exactly the row the variable had for that id. -/
+theorem C04_bound_to_same_ids_own_order (f : Fem V) (h : FemOK f) :
+    ∃ r, Ucd.read (write (toMesh Cfg.fixed f)) = some r ∧ r.nodes = f.nodes ∧
+      BoundToSameIds (f.nodes.map Prod.fst) f.nodalVars (readTables r.nodalVars r.nodalRows) ∧
+      BoundToSameIds (Ucd.elemIds f.blocks) f.elemVars (readTables r.elemVars r.elemRows) := by
+  refine ⟨expectedRead (toMesh Cfg.fixed f), C04_roundtrip _ (toMesh_WF _ f), rfl, ?_, ?_⟩
+  · have := readTables_aligned (f.nodes.map Prod.fst) f.nodalVars h.nodal
+    have hlen : (f.nodes.map Prod.fst).length = (List.map Prod.fst f.nodes).length := rfl
+    show BoundToSameIds _ _ (readTables
+      (expData (f.nodalVars.map toVar) ((f.nodes.map Prod.fst).zip (catRows (f.nodalVars.map (rowsFor Cfg.fixed (f.nodes.map Prod.fst))) (f.nodes.map Prod.fst).length))).1
+      (expData (f.nodalVars.map toVar) ((f.nodes.map Prod.fst).zip (catRows (f.nodalVars.map (rowsFor Cfg.fixed (f.nodes.map Prod.fst))) (f.nodes.map Prod.fst).length))).2)
+    rw [this]
+    exact boundToSameIds_aligned _ h.nodeIds _ h.nodal
+  · have := readTables_aligned (Ucd.elemIds f.blocks) f.elemVars h.elemental
+    show BoundToSameIds _ _ (readTables
+      (expData (f.elemVars.map toVar) ((Ucd.elemIds f.blocks).zip (catRows (f.elemVars.map (rowsFor Cfg.fixed (Ucd.elemIds f.blocks))) (Ucd.elemIds f.blocks).length))).1
+      (expData (f.elemVars.map toVar) ((Ucd.elemIds f.blocks).zip (catRows (f.elemVars.map (rowsFor Cfg.fixed (Ucd.elemIds f.blocks))) (Ucd.elemIds f.blocks).length))).2)
+    rw [this]
+    exact boundToSameIds_aligned _ h.elemIds _ h.elemental
+
+/-- two nodal variables with different private orders (`[3, 7, 5]` and `[5, 3, 7]`; mesh order `[7, 3, 5]`) and an
+    elemental variable in the order `[4, 9]` on a mesh whose `elements.ids` is `[9, 4]` -/
+def exFem : Fem Nat :=
+  ⟨[(7, [0, 0, 0]), (3, [1, 0, 0]), (5, [0, 1, 0])], [(5, [⟨9, [7, 3, 5]⟩, ⟨4, [3, 5, 7]⟩])],
+   [⟨['T'], 1, [3, 7, 5], [[30], [70], [50]]⟩, ⟨['U'], 2, [5, 3, 7], [[51, 52], [31, 32], [71, 72]]⟩],
+   [⟨['S'], 1, [4, 9], [[40], [90]]⟩]⟩
+
+example : FemOK exFem := femOKB_sound _ (by decide)
+example : (Ucd.read (write (toMesh Cfg.fixed exFem))).map (fun r => (readTables r.nodalVars r.nodalRows, readTables r.elemVars r.elemRows))
+    = some ([⟨['T'], 1, [7, 3, 5], [[70], [30], [50]]⟩, ⟨['U'], 2, [7, 3, 5], [[71, 72], [31, 32], [51, 52]]⟩],
+            [⟨['S'], 1, [9, 4], [[90], [40]]⟩]) := by decide
+
+/-- the unrepaired writer (`Cfg.upstream`, rows taken positionally) on the same data: the values come back under
+    other ids (F9) -/
+theorem C04_own_order_counterexample_upstream :
+    (Ucd.read (write (toMesh Cfg.upstream exFem))).map (fun r => readTables r.elemVars r.elemRows)
+      = some [⟨['S'], 1, [9, 4], [[40], [90]]⟩] := by decide
+
+/-! ### character level: the printer of the writer, the whitespace lexer of the reader -/
+open Femio.Text in
+/-- **C04_lex_print_line** — for every token line the writer can emit (counts, ids, element type names of the source
+    table, value numerals that are non-empty, free of whitespace and commas, and are neither a decimal integer nor a
+    type name; or a name line whose name has no whitespace and no comma): splitting the printed line
+    `' '.join(tokens)` (`name + ", unit_unknown"` for a name line) at whitespace (`str.split()` / `\s+`, all 29
+    Unicode whitespace characters of Python) and classifying the pieces gives the token line back. -/
+theorem C04_lex_print_line (l : Line Str) (h : lineOKB l = true) : lexLine (lineText l) = l :=
+  lexLine_lineText l h
+
+example : lexLine (lineText [.n 12, .n 1, .t 8, .n 3, .n 40]) = [.n 12, .n 1, .t 8, .n 3, .n 40] := by decide
+example : lineText [.n 12, .n 1, .t 8, .n 3, .n 40] = "12 1 tet 3 40".toList := by decide
+example : lineOKB [.n 7, .v "-1.5e-300".toList, .v "NaN".toList, .v "inf".toList] = true := by decide
+example : lexLine "  7\t-1.5e-300  NaN inf ".toList = [.n 7, .v "-1.5e-300".toList, .v "NaN".toList, .v "inf".toList] := by decide
+example : lexLine (lineText [.w "tet".toList]) = [.w "tet".toList] := by decide
+
+open Femio.Text in
+/-- **C04_roundtrip_lines** — `C04_roundtrip` on lines of characters: every written token line printed as text
+    and lexed again, then read by position, gives exactly `expectedRead m`. -/
+theorem C04_roundtrip_lines (m : Mesh Str) (h : WF m) (hok : meshOKB m = true) :
+    Ucd.read (((write m).map lineText).map lexLine) = some (expectedRead m) := by
+  rw [lex_print_write m hok]; exact C04_roundtrip m h
+
+open Femio.Text in
+/-- **C04_roundtrip_chars** — the whole file as one string of characters (every line terminated by `'\n'`): the
+    reader (`readText`: the non-empty lines between newlines as `StringSeries.read_file` delivers them, each split
+    at whitespace, read by position) recovers exactly `expectedRead m` from the writer's text `fileText m`. -/
+theorem C04_roundtrip_chars (m : Mesh Str) (h : WF m) (hok : meshOKB m = true) :
+    readText (fileText m) = some (expectedRead m) := by
+  unfold readText
+  rw [fileLines_fileText m hok]; exact C04_roundtrip_lines m h hok
+
+/-- the part of `meshOKB` that does not concern values: type tags of the source table, names without whitespace / comma -/
+def shapeOKB (m : Mesh V) : Bool :=
+  m.blocks.all (fun b => decide (b.1 < Femio.Gen.elementTypes.length)) &&
+  m.nodalVars.all (fun x => nameOKB x.name) && m.elemVars.all (fun x => nameOKB x.name)
+
+open Femio.Text in
+/-- **C04_roundtrip_chars_printed** — values → characters → values: for any float printer / parser with
+    `parse (print v) = v` (trusted: Python's shortest `repr` and `float()`) whose numerals are value tokens
+    (`valOKB (print v)`: non-empty, no whitespace, no comma, not a decimal integer, not a type name — evaluated by the
+    driver on every printed value of every generated case), writing the mesh to a text file and reading the text
+    back is the identity on the mesh (tet2 → corner tet) and on every value. -/
+theorem C04_roundtrip_chars_printed (print : V → Str) (parse : Str → V) (hpp : ∀ v, parse (print v) = v)
+    (hval : ∀ v, valOKB (print v) = true) (m : Mesh V) (h : WF m) (hs : shapeOKB m = true) :
+    (readText (fileText (mapMesh print m))).map (mapRead parse) = some (expectedRead m) := by
+  have hWF : WF (mapMesh print m) := ⟨by simp [mapMesh, h.nodalRows], by simpa [mapMesh, nElem] using h.elemRows⟩
+  have hok : meshOKB (mapMesh print m) = true := by
+    simp only [shapeOKB, Bool.and_eq_true] at hs
+    simp only [meshOKB, mapMesh, Bool.and_eq_true, List.all_map, List.all_eq_true]
+    refine ⟨⟨⟨⟨⟨?_, ?_⟩, ?_⟩, ?_⟩, ?_⟩, ?_⟩
+    · intro p _; simp [List.all_eq_true, hval]
+    · simpa [List.all_eq_true] using hs.1.1
+    · simpa [List.all_eq_true] using hs.1.2
+    · intro p _; simp [List.all_eq_true, hval]
+    · simpa [List.all_eq_true] using hs.2
+    · intro p _; simp [List.all_eq_true, hval]
+  have h1 := C04_roundtrip_chars _ hWF hok
+  have h2 := C04_roundtrip_printed print parse hpp m h
+  rw [C04_roundtrip _ hWF] at h2
+  rw [h1]; exact h2
+
+open Femio.Text in
+/-- **C04_own_order_chars** — `C04_bound_to_same_ids_own_order` through the character level: the text file the
+    repaired writer produces from a FEMData whose variables have private id orders is read back, from its
+    characters, with every variable bound to the same ids. -/
+theorem C04_own_order_chars (f : Fem Str) (h : FemOK f) (hok : meshOKB (toMesh Cfg.fixed f) = true) :
+    ∃ r, readText (fileText (toMesh Cfg.fixed f)) = some r ∧ r.nodes = f.nodes ∧
+      BoundToSameIds (f.nodes.map Prod.fst) f.nodalVars (readTables r.nodalVars r.nodalRows) ∧
+      BoundToSameIds (Ucd.elemIds f.blocks) f.elemVars (readTables r.elemVars r.elemRows) := by
+  obtain ⟨r, hr, h1, h2, h3⟩ := C04_bound_to_same_ids_own_order f h
+  refine ⟨r, ?_, h1, h2, h3⟩
+  rw [C04_roundtrip_chars _ (toMesh_WF _ f) hok, ← hr, C04_roundtrip _ (toMesh_WF _ f)]
+
+open Femio.Text in
+/-- a printed FEMData: coordinates / values as numerals, two nodal variables in different private orders -/
+def exFemText : Fem Str :=
+  ⟨[(7, ["0.0".toList, "-0.0".toList, "1e+300".toList]), (3, ["NaN".toList, "inf".toList, "5e-324".toList])],
+   [(9, [⟨2, [7, 3, 7, 3, 7, 3, 7, 3, 7, 3]⟩])],
+   [⟨"T".toList, 1, [3, 7], [["0.5".toList], ["-inf".toList]]⟩, ⟨"tet".toList, 1, [7, 3], [["1.5".toList], ["2.5".toList]]⟩],
+   [⟨"E12".toList, 2, [2], [["0.1".toList, "1e-05".toList]]⟩]⟩
+
+example : femOKB exFemText = true ∧ meshOKB (toMesh Cfg.fixed exFemText) = true := by decide +kernel
+example : fileText (toMesh Cfg.fixed exFemText) =
+    ("2 1 2 2 0\n7 0.0 -0.0 1e+300\n3 NaN inf 5e-324\n2 1 tet 7 3 7 3\n2 1 1\nT, unit_unknown\ntet, unit_unknown\n"
+      ++ "7 -inf 1.5\n3 0.5 2.5\n1 2\nE12, unit_unknown\n2 0.1 1e-05\n").toList := by decide +kernel
 
 /-- tie to the source table (regenerated from /repo on every run): the model's type tags are indices into
     `FEMElementalAttribute.ELEMENT_TYPES` -/
